@@ -1,6 +1,7 @@
 import RgVerif.Lemmas.GitLine3
 import RgVerif.Lemmas.GitStar
 import RgVerif.Lemmas.GitBlank
+import RgVerif.Model.GitignoreAnchors
 /-
 C04 — ignore files mean what git says.  Only the deciding statements; proofs in `Lemmas/Git*.lean`.
 
